@@ -113,7 +113,7 @@ type Emit struct {
 	Ch   pushers.Channel
 }
 
-func (s *Emit) SetChannel(c pushers.Channel)                       { s.Ch = c }
+func (s *Emit) SetChannel(c pushers.Channel)                    { s.Ch = c }
 func (s *Emit) Handle(ctx context.Context, conn net.Conn) error { return nil }
 
 // Emitters returns the verif-emit instances constructed since ResetStubs.
